@@ -9,6 +9,7 @@ import Driver.C06
 import Driver.C18
 import Driver.C04
 import Driver.C09
+import Driver.C14
 import Driver.C10
 import Driver.C17
 
@@ -24,6 +25,7 @@ def dispatch (line : String) : String :=
   | "C18" :: r => Driver.C18.handle r
   | "C04" :: r => Driver.C04.handle r
   | "C09" :: r => Driver.C09.handle r
+  | "C14" :: r => Driver.C14.handle r
   | "C10" :: r => Driver.C10.handle r
   | "C17" :: r => Driver.C17.handle r
   | _ => "bad-request"
